@@ -75,6 +75,9 @@ def check(ctx):
     run.rule('R15', 'COMMIT-ORDER: file.close() then rename, only after the loop over all resources completed, never from an '
                     'except / finally block (an upstream error or a GeneratorExit leaves only the .active file)')
     commits.r15_checkpoint_rename(ctx)
+    # a failing step must surface as an exception at the writer: no construct may turn it into a silent end of stream
+    from rules import errors
+    errors.r14_stopiteration_drivers(ctx)
     # no try statement at all encloses the resource loop with a handler that continues to the rename
     sf = commits.stream_func(ctx)
     trys = [n for n in own_nodes(sf.node) if isinstance(n, ast.Try)]
